@@ -39,6 +39,7 @@ type z9Scenario struct {
 	Faulty     int      `json:"faulty_attempts"` // attempts with faults enabled before the clean one
 	Prior      bool     `json:"prior,omitempty"` // an older version of the tag is already pulled
 	ReadSize   int      `json:"read_size,omitempty"`
+	SharedHead bool     `json:"shared_head,omitempty"` // all layers begin with the same chunk
 }
 
 const (
@@ -161,6 +162,10 @@ func z9Body(sc z9Scenario) func() {
 			var layers [][]byte
 			for i, n := range sc.Layers {
 				layers = append(layers, z9Data(n, variant+byte(i)))
+				if sc.SharedHead && i > 0 {
+					// the first chunk (4 bytes) of every layer is that of the first layer: same chunk digest, same range
+					copy(layers[i], layers[0][:4])
+				}
 			}
 			var cfg []byte
 			if sc.Config > 0 {
@@ -405,6 +410,7 @@ func z9Scenarios(thorough bool) []z9Scenario {
 	l := []z9Scenario{
 		{Name: "small-layer", Op: "pull", Layers: []int{3}, Config: 2, MaxStreams: 1, Faults: netf, Faulty: 1},
 		{Name: "chunked-layer", Op: "pull", Layers: []int{12}, MaxStreams: 2, Faults: netf, Faulty: 1},
+		{Name: "shared-first-chunk", Op: "pull", Layers: []int{12, 10}, MaxStreams: 1, SharedHead: true, Faults: []string{"500"}, Faulty: 1},
 		{Name: "chunk-plans", Op: "pull", Layers: []int{12}, MaxStreams: 2, PlanFaults: true, Faulty: 1},
 		{Name: "two-layers-unlimited", Op: "pull", Layers: []int{12, 3}, MaxStreams: -1, Faults: []string{"500", "truncate"}, Faulty: 1},
 		{Name: "chunked-cancel", Op: "pull", Layers: []int{12}, MaxStreams: 2, Cancel: true, Faulty: 1},
@@ -559,7 +565,18 @@ func ZZVerifC09() {
 				return
 			}
 			js, _ := json.Marshal(sc)
-			sub.Violation(z9Sig(fails[0], sc), strings.Join(fails, "\n")+"\nscenario "+string(js)+"\nchoices "+mcrt.EncodeChoices(choices)+"\nlog:\n  "+strings.Join(res.Log, "\n  "),
+			sig := z9Sig(fails[0], sc)
+			clean := true
+			for _, l := range res.Log {
+				if strings.Contains(l, "fault") || strings.Contains(l, "cancel") || strings.Contains(l, "gone") || (strings.HasPrefix(l, "attempt ") && !strings.HasSuffix(l, ": ok")) {
+					clean = false
+				}
+			}
+			if clean {
+				// the registry answered every request correctly and the client stayed: not one of the "earlier attempt failed" histories
+				sig += "/no-fault"
+			}
+			sub.Violation(sig, strings.Join(fails, "\n")+"\nscenario "+string(js)+"\nchoices "+mcrt.EncodeChoices(choices)+"\nlog:\n  "+strings.Join(res.Log, "\n  "),
 				z9Replay{Scenario: sc, Choices: mcrt.EncodeChoices(choices), Bounds: bounds})
 		}
 	}
